@@ -15,6 +15,9 @@ import NV.Gen.Listen
 import NV.Model.SvcStart
 import NV.Model.CFG
 import NV.Gen.SvcStart
+import NV.Model.SvcLife
+import NV.Lemmas.SvcLife
+import NV.Gen.Hooks
 namespace NV.C16
 open NV.Listen
 
@@ -880,3 +883,189 @@ theorem start_need_holds (i : Nat) (s : St) (b : Block) (pre post : List Ev)
 end SvcStart
 
 end NV.C16
+
+/-! ### The life cycle of the service object (run.go `proxySvc`: Start / Stop / Restart), every history -/
+namespace NV.C16Life
+open NV.SvcStart NV.SvcLife
+
+theorem good_init : Good init := by simp [Good, init]
+
+theorem good_step (s s' : St) (o : Op) (r : Ret) (h : Good s) (hs : step s o = some (s', r)) : Good s' := by
+  obtain ⟨h1, h2⟩ := h
+  cases o with
+  | start as =>
+    simp only [step] at hs
+    split at hs
+    · simp at hs
+    · split at hs <;> simp only [Option.some.injEq, Prod.mk.injEq] at hs <;> obtain ⟨rfl, _⟩ := hs
+      · simp [Good]
+      · simp [Good]
+      · refine ⟨by simp, ?_⟩
+        intro hl
+        simp [h2 hl]
+  | stop =>
+    simp only [step, stopInner] at hs
+    split at hs
+    · simp only [Option.some.injEq, Prod.mk.injEq] at hs
+      obtain ⟨rfl, _⟩ := hs
+      simp [Good]
+    · rename_i hns
+      simp only [Option.some.injEq, Prod.mk.injEq] at hs
+      obtain ⟨rfl, _⟩ := hs
+      simpa [Good] using ⟨h1, h2⟩
+  | restart a =>
+    simp only [step, Option.some.injEq, Prod.mk.injEq] at hs
+    obtain ⟨rfl, _⟩ := hs
+    simp [Good, attemptSt]
+  | die =>
+    simp only [step, Option.some.injEq, Prod.mk.injEq] at hs
+    obtain ⟨rfl, _⟩ := hs
+    exact ⟨by simp, by simpa using h2⟩
+
+/-- **every history**: whatever sequence of Start / Stop / Restart calls and listener deaths the
+object has been through, a serving instance still has its cancel function, and a service whose
+last hook round was the start-up round (router set up, system DNS activated) has it too. -/
+theorem life_inv (ops : List Op) (s0 s : St) (h0 : Good s0) (hr : run s0 ops = some s) : Good s := by
+  induction ops generalizing s0 with
+  | nil => simp [run] at hr; subst hr; exact h0
+  | cons o os ih =>
+    simp only [run] at hr
+    split at hr
+    · simp at hr
+    · rename_i s' r hs
+      exact ih s' (good_step s0 s' o r h0 hs) hr
+
+/-- `Stop()` always returns, and after it nothing serves and the field is cleared -/
+theorem stop_quiesces (s : St) (h : Good s) :
+    ∃ s', step s .stop = some (s', .ok) ∧ s'.serving = false ∧ s'.stopSet = false := by
+  by_cases hs : s.stopSet = true
+  · exact ⟨{ stopSet := false, serving := false, log := s.log ++ [.down] }, by simp [step, stopInner, hs], rfl, rfl⟩
+  · have hf : s.stopSet = false := by simpa using hs
+    refine ⟨s, by simp [step, stopInner, hf], ?_, hf⟩
+    cases hv : s.serving with
+    | false => rfl
+    | true => have := h.1 hv; simp [hf] at this
+
+/-- a second `Stop()` does nothing: the OnStopped hooks (router Restore, deactivation) do not run twice -/
+theorem stop_idempotent (s s1 : St) (r : Ret) (h : step s .stop = some (s1, r)) :
+    step s1 .stop = some (s1, .ok) := by
+  by_cases hs : s.stopSet = true
+  · simp only [step, stopInner, hs, ↓reduceIte, Option.some.injEq, Prod.mk.injEq] at h
+    obtain ⟨rfl, _⟩ := h
+    simp [step, stopInner]
+  · have hf : s.stopSet = false := by simpa using hs
+    simp only [step, stopInner, hf, Bool.false_eq_true, ↓reduceIte, Option.some.injEq, Prod.mk.injEq] at h
+    obtain ⟨rfl, _⟩ := h
+    simp [step, stopInner, hf]
+
+/-- `Restart()` runs no hook round -/
+theorem restart_keeps_log (s s' : St) (a : Att) (r : Ret) (h : step s (.restart a) = some (s', r)) :
+    s'.log = s.log := by
+  simp only [step, stopInner, Option.some.injEq, Prod.mk.injEq] at h
+  obtain ⟨rfl, _⟩ := h
+  split <;> simp [attemptSt]
+
+/-- **after any history, `Stop()` leaves no started-up configuration behind**: the last hook round is
+never the start-up round — if it was, the shut-down round runs now. -/
+theorem stop_undoes_last_up (ops : List Op) (s s' : St) (r : Ret) (hr : run init ops = some s)
+    (hs : step s .stop = some (s', r)) : s'.log.getLast? ≠ some .up := by
+  have hi := life_inv ops init s good_init hr
+  by_cases hset : s.stopSet = true
+  · simp only [step, stopInner, hset, ↓reduceIte, Option.some.injEq, Prod.mk.injEq] at hs
+    obtain ⟨rfl, _⟩ := hs
+    simp
+  · have hf : s.stopSet = false := by simpa using hset
+    simp only [step, stopInner, hf, Bool.false_eq_true, ↓reduceIte, Option.some.injEq, Prod.mk.injEq] at hs
+    obtain ⟨rfl, _⟩ := hs
+    intro hl
+    exact hset (hi.2 hl)
+
+/-- a started service that went through any number of restarts and listener deaths, then `Stop()`:
+exactly one start-up round and one shut-down round, in that order; nothing serves. -/
+theorem start_restarts_stop (n : Nat) (rest : List Att) (mid : List Op)
+    (hmid : ∀ o ∈ mid, (∃ a, o = .restart a) ∨ o = .die) :
+    ∃ s, run init (.start (List.replicate n .unreachable ++ .bound :: rest) :: mid ++ [.stop]) = some s ∧
+      s.log = [.up, .down] ∧ s.serving = false ∧ s.stopSet = false := by
+  have hst : svcStart (List.replicate n Att.unreachable ++ Att.bound :: rest) = .started :=
+    (NV.C16.started_iff _).2 ⟨n, rest, rfl⟩
+  -- after Start: stopSet, log = [up]; restarts and deaths keep both
+  have key : ∀ (mid : List Op) (s0 : St), (∀ o ∈ mid, (∃ a, o = .restart a) ∨ o = .die) →
+      s0.stopSet = true → s0.log = [.up] →
+      ∃ s, run s0 (mid ++ [.stop]) = some s ∧ s.log = [.up, .down] ∧ s.serving = false ∧ s.stopSet = false := by
+    intro mid
+    induction mid with
+    | nil =>
+      intro s0 _ hset hlog
+      exact ⟨{ stopSet := false, serving := false, log := s0.log ++ [.down] },
+        by simp [run, step, stopInner, hset], by simp [hlog], rfl, rfl⟩
+    | cons o os ih =>
+      intro s0 hm hset hlog
+      rcases hm o (by simp) with ⟨a, rfl⟩ | rfl
+      · simp only [List.cons_append, run, step, stopInner, hset, ↓reduceIte]
+        exact ih _ (fun o ho => hm o (by simp [ho])) (by simp [attemptSt]) (by simp [attemptSt, hlog])
+      · simp only [List.cons_append, run, step]
+        exact ih _ (fun o ho => hm o (by simp [ho])) (by simpa using hset) (by simpa using hlog)
+  simp only [List.cons_append, run, step, init, hst]
+  simpa using key mid _ hmid (by simp) (by simp)
+
+example : run init [.start [.unreachable, .bound], .restart .bound, .die, .stop, .stop] =
+    some { stopSet := false, serving := false, log := [.up, .down] } := by decide
+
+/-- quirk kept visible: a `Stop()` after a FAILED start finds the field set by the failed attempt and runs
+the shut-down round although no start-up round ran (no caller does that: both run loops return on a
+Start error). -/
+example : run init [.start [.failed], .stop] = some { stopSet := false, serving := false, log := [.down] } := by decide
+
+
+open NV.CFG NV.Gen in
+/-- **C16/C20 (regenerated)**: `(*proxySvc).Stop` runs the OnStopped hooks only on the success edge of the
+test of `p.stop()`, on every path (certificate over the regenerated CFG); the extraction saw the call, the
+loop and the hook call. -/
+theorem gen_stop_hooks_guarded :
+    check Hooks.stopHooks_strict Hooks.stopHooks Hooks.stopHooks_cert Hooks.stopHooks_init = true ∧
+    Hooks.stopHooks_init = (0, 0) ∧ 1 ≤ Hooks.stopHookCalls ∧ Hooks.stopCalls = 1 ∧
+    (Hooks.stopHooks.any fun b => b.evs == [.acq]) = true ∧
+    (Hooks.stopHooks.any fun b => b.evs.contains .need) = true := by decide
+
+open NV.CFG NV.Gen in
+/-- **(regenerated)** `(*proxySvc).stop`, three projections of its CFG: `return true` is only reached after
+`p.stopFunc()` was called and `<-p.stopped` was waited for — in that order — and after the field was cleared;
+`return false` is only reached on the nil edge of the test of the field. This is `NV.SvcLife.stopInner`. -/
+theorem gen_stop_inner_ok :
+    check Hooks.stopCancel_strict Hooks.stopCancel Hooks.stopCancel_cert Hooks.stopCancel_init = true ∧
+    check Hooks.stopClear_strict Hooks.stopClear Hooks.stopClear_cert Hooks.stopClear_init = true ∧
+    check Hooks.stopNil_strict Hooks.stopNil Hooks.stopNil_cert Hooks.stopNil_init = true ∧
+    (Hooks.stopCancel.any fun b => b.evs == [.acq, .need, .need, .rel]) = true ∧
+    (Hooks.stopClear.any fun b => b.evs == [.acq, .need, .rel]) = true ∧
+    (Hooks.stopNil.any fun b => b.evs == [.acq]) = true ∧
+    (Hooks.stopNil.any fun b => b.evs == [.need, .rel]) = true := by decide
+
+open NV.Gen in
+/-- **(regenerated)** `Restart` is `stop()` then `start()` and touches no hook list; `start()`'s goroutine
+publishes the cancel function and the `stopped` channel before it serves and closes the channel when it
+returns; nothing else writes the field. -/
+theorem gen_restart_start_shape :
+    Hooks.restartCalls = ["stop", "start"] ∧ Hooks.restartMentionsHooks = false ∧
+    Hooks.startAssignsStopFuncFirst = true ∧ Hooks.startMakesStoppedFirst = true ∧
+    Hooks.startDefersCloseStopped = true ∧ Hooks.stopFuncWrites = 2 := by decide
+
+open NV.Gen in
+/-- **(regenerated)** the run loops: as a service only SIGTERM leads to `r.Stop()` (all signals are
+subscribed, the others are logged), in the foreground SIGHUP / SIGTERM / interrupt do; a failed
+`r.Start()` returns without `r.Stop()`. This is `NV.SvcLife.stopsOn` / `runLoopOps`. -/
+theorem gen_runloop_agree :
+    Hooks.svcStopSignals = ["syscall.SIGTERM"] ∧ Hooks.svcNotifyAll = true ∧ Hooks.svcStartErrReturns = true ∧
+    Hooks.fgNotify = ["syscall.SIGHUP", "syscall.SIGTERM", "os.Interrupt"] ∧
+    Hooks.fgStopsAfterSignal = true ∧ Hooks.fgStartErrReturns = true := by decide
+
+/-- **a whole run of the daemon under its run loop**: no hook round when the start failed (or is still
+waiting for the network), the start-up round alone while it runs, the start-up round followed by the
+shut-down round once a stopping signal arrived — for every outcome list and every signal sequence. -/
+theorem service_run_log (fg : Bool) (as : List Att) (sigs : List Sig) :
+    ∃ s, run init (runLoopOps fg as sigs) = some s ∧
+      s.log = (if svcStart as = .started then
+                 (if sigs.any (stopsOn fg) = true then [.up, .down] else [.up]) else []) ∧
+      (s.serving = true ↔ (svcStart as = .started ∧ sigs.any (stopsOn fg) = false)) :=
+  NV.SvcLife.service_run_log' fg as sigs
+
+end NV.C16Life
